@@ -1,6 +1,9 @@
 From Coq Require Import extraction.Extraction extraction.ExtrOcamlBasic.
-From TU Require Import Base C12_Model C12_UAX29 C12_Float.
-Definition run := run_C12F.
-Definition check := check_C12F.
-Definition agree (inp m i : val) : bool := agree_C12F inp m i && uax29_agree inp.
+From TU Require Import Base C12_Model C12_UAX29 C12_Float C12_Fast C12_FastRun.
+(** [run_R] = [run_C12F], [check_R] = [check_C12F] for every input (C12_FastFlProps.v); above the size
+    threshold [big] they are computed by the binary-number dynamic programme of C12_Fast.v alone, below it
+    by the old model with the fast one next to it inside [agree_R]. *)
+Definition run := run_R.
+Definition check := check_R.
+Definition agree := agree_R.
 Extraction "model.ml" run check agree.
